@@ -8,6 +8,9 @@ From Soy Require Import Model.Outcome.
 From Soy Require Import Model.RawText.
 From Soy Require Import Spec.Text.
 From Soy Require Import Proofs.RawTextProofs.
+From Soy Require Import Model.Ast Model.Token Model.Lexer Model.Parser Generated.Tables
+  Proofs.LexerProofs Proofs.LexBodyText Proofs.LexBodyTop Proofs.ParseBodyText Proofs.BodyTextMain.
+From Soy Require Import Spec.TextBody Proofs.LexTokens Proofs.LexPrintTop Proofs.LexBodyMain Proofs.BodyCmdMain.
 Open Scope N_scope.
 
 (* The loop of parse/rawtext.go returns exactly the Spec's normalisation, under
@@ -88,6 +91,142 @@ Proof. split; [vm_compute; reflexivity | repeat constructor; discriminate]. Qed.
 Example C15_ex_interior : normalize false false ([97] ++ [32; 10] ++ [60]) = [97; 60].
 Proof. vm_compute. reflexivity. Qed.
 
+(* ---- template level: scanner model + parser model against the Spec's body_text ---- *)
+
+(* For EVERY text T of plain bytes (no NUL, no brace; multi-byte runes and invalid UTF-8 included) on which the
+   Spec is defined (every block comment closed, no soydoc opener): the scanner model of parse/lexer.go
+   (lexText, maybeEmitText, allSpaceWithNewline, lexLineComment, lexBlockComment; unicode tables of the
+   toolchain), run on T as a file, returns an item list, and the parser model of parse/parse.go (SoyFile:
+   itemList, textOrTag with its comment flags, the text-item run, rawtext), run on these items under the entry
+   point's own budget, returns a list node whose children are all raw-text nodes and whose texts,
+   concatenated, are exactly body_text true T: comments removed, each piece between comments normalised by
+   [normalize] with a comment acting as a flagged end, white-space-only pieces with a line break dropped.
+   ([lexq], [unq], [inlen] -- the nested scanner, strconv.Unquote and the length used for error positions --
+   are arbitrary: this path never consults them.)
+   PARTIAL with respect to the design's body_text_spec: T is the whole input (so "//" at the very start is a
+   comment) and contains no tag; bodies with the special-character commands are C15_body_special_chars_spec
+   below (comment-free stretches); {literal} blocks and comments next to tags are not covered by a theorem and
+   stay with the rendering check of the harness. *)
+Theorem C15_body_text_spec_partial : forall inlen lexq unq T out,
+  plain T -> body_text true T = Some out ->
+  exists items pos nodes st,
+    lex_items is_letter_tbl is_digit_tbl (lex_budget T) false T = Ok items /\
+    po_result (soy_file inlen lexq unq items) = POk (NList pos nodes) st /\
+    Forall is_raw nodes /\ concat (map raw_text_of nodes) = out.
+Proof.
+  intros inlen lexq unq. destruct tables_eof as [Hl Hd].
+  exact (body_text_impl_spec is_letter_tbl is_digit_tbl Hl Hd inlen lexq unq).
+Qed.
+Print Assumptions C15_body_text_spec_partial.
+
+(* the scanner alone, in the Spec's terms: the items of T are, piece by piece, the piece's text item (none
+   for an empty piece or one of white space with a line break), then the comment item, and EOF at the end *)
+Theorem C15_lex_text_pieces : forall T pcs,
+  plain T -> pieces MText true [] T = Some pcs ->
+  exists items, lex_items is_letter_tbl is_digit_tbl (lex_budget T) false T = Ok items /\ shape pcs items.
+Proof. destruct tables_eof as [Hl Hd]. exact (lex_body_items is_letter_tbl is_digit_tbl Hl Hd). Qed.
+Print Assumptions C15_lex_text_pieces.
+
+(* "http://x is not a comment", as a theorem about lexText: a text in which the Spec finds no comment -- every
+   "//" follows a byte that is not white space, there is no "/*" -- is sent as ONE text item, then EOF *)
+Theorem C15_http_not_comment : forall T,
+  plain T -> pieces MText true [] T = Some [T] ->
+  exists items e, lex_items is_letter_tbl is_digit_tbl (lex_budget T) false T = Ok items /\ t_typ e = itemEOF /\
+    (if droppable T then items = [e]
+     else exists p, items = [{| t_typ := itemText; t_pos := p; t_val := T |}; e]).
+Proof. destruct tables_eof as [Hl Hd]. exact (no_comment_one_item is_letter_tbl is_digit_tbl Hl Hd). Qed.
+Print Assumptions C15_http_not_comment.
+
+(* and the Spec finds no comment there: "//" after a byte that is neither white space nor '/' is text *)
+Theorem C15_slashes_after_nonspace : forall pw cur c v, ws c = false -> c <> 47 ->
+  pieces MText pw cur (c :: 47 :: 47 :: v) = pieces MText false (47 :: c :: cur) (47 :: v).
+Proof. exact slashes_after_nonspace. Qed.
+Print Assumptions C15_slashes_after_nonspace.
+
+(* ---- bodies with special-character commands ---- *)
+(* For EVERY body  T0 {c1} T1 {c2} T2 ... {cn} Tn  (Spec/TextBody.v) in which every ci is one of the seven
+   special-character commands {sp} {nil} {\t} {\r} {\n} {lb} {rb} and every stretch Ti consists of plain bytes (no
+   NUL, no brace) and contains no comment in the Spec's sense (T0 begins the input, where a leading "//" would be
+   one; after a tag it is not): the scanner model run on the body as a file (lexText up to each "{", lexLeftDelim,
+   lexBeginTag, lexInsideTag / lexIdent on the command name, "}" -> lexRightDelim) returns an item list, and the
+   parser model (SoyFile: itemList, textOrTag, beginTag's special-character and literal cases, rawtext) run on it under the
+   entry point's own budget returns a list node whose children are all raw-text nodes and whose texts,
+   concatenated, are  normalize T0 ++ char(c1) ++ normalize T1 ++ ... : each stretch normalised as a whole with
+   no flagged end, each command giving exactly its character ({nil}: nothing), each literal block its text s
+   verbatim (lexLiteral with strings.Index; no normalisation).  Stretches may be empty.
+   NOT covered (the remaining gap to the design's body_text_spec): comments inside a body that also contains
+   tags (comments are covered for bodies without tags: C15_body_text_spec_partial), "{literal }" with spaces. *)
+Theorem C15_body_special_chars_spec : forall inlen lexq unq T0 rest,
+  stretch_ok true T0 -> Forall seg_ok rest ->
+  exists items pos nodes st,
+    lex_items is_letter_tbl is_digit_tbl (lex_budget (body_src T0 rest)) false (body_src T0 rest) = Ok items /\
+    po_result (soy_file inlen lexq unq items) = POk (NList pos nodes) st /\
+    Forall is_raw nodes /\ concat (map raw_text_of nodes) = body_out T0 rest.
+Proof.
+  intros inlen lexq unq. destruct tables_ascii as [Hl Hd]. destruct tables_eof as [El Ed].
+  exact (body_cmds_impl_spec is_letter_tbl is_digit_tbl Hl Hd El Ed inlen lexq unq).
+Qed.
+Print Assumptions C15_body_special_chars_spec.
+
+(* special_chars_exact: a special-character command alone gives exactly its character *)
+Theorem C15_special_chars_exact : forall inlen lexq unq name out, In (name, out) special_cmds ->
+  exists items pos nodes st,
+    lex_items is_letter_tbl is_digit_tbl (lex_budget ([123] ++ name ++ [125])) false ([123] ++ name ++ [125]) = Ok items /\
+    po_result (soy_file inlen lexq unq items) = POk (NList pos nodes) st /\
+    Forall is_raw nodes /\ concat (map raw_text_of nodes) = out.
+Proof.
+  intros inlen lexq unq name out Hin.
+  destruct (C15_body_special_chars_spec inlen lexq unq [] [((name, out), [])]) as (items & pos & nodes & st & A & B & C & D).
+  - split; [constructor|reflexivity].
+  - constructor; [|constructor]. split; [left; exact Hin|]. split; [constructor|reflexivity].
+  - assert (E : body_src [] [((name, out), [])] = [123] ++ name ++ [125]) by reflexivity. rewrite E in A.
+    exists items, pos, nodes, st. split; [exact A|]. split; [exact B|]. split; [exact C|]. rewrite D. unfold body_out. cbn [rest_out].
+    change (normalize false false []) with (@nil N). cbn [app]. apply app_nil_r.
+Qed.
+Print Assumptions C15_special_chars_exact.
+
+(* literal_exact: {literal}s{/literal} alone gives exactly s, whatever bytes s consists of (braces, comment
+   openers, line breaks, NUL), as long as "{/literal}" does not occur in s ++ "{/literal}" before the end *)
+Theorem C15_literal_exact : forall inlen lexq unq s, lit_closed s ->
+  exists items pos nodes st,
+    lex_items is_letter_tbl is_digit_tbl (lex_budget ([123] ++ lit_name s ++ [125])) false ([123] ++ lit_name s ++ [125]) = Ok items /\
+    po_result (soy_file inlen lexq unq items) = POk (NList pos nodes) st /\
+    Forall is_raw nodes /\ concat (map raw_text_of nodes) = s.
+Proof.
+  intros inlen lexq unq s Hcl.
+  destruct (C15_body_special_chars_spec inlen lexq unq [] [((lit_name s, s), [])]) as (items & pos & nodes & st & A & B & C & D).
+  - split; [constructor|reflexivity].
+  - constructor; [|constructor]. split; [right; split; [reflexivity|exact Hcl]|]. split; [constructor|reflexivity].
+  - assert (E : body_src [] [((lit_name s, s), [])] = [123] ++ lit_name s ++ [125]) by reflexivity. rewrite E in A.
+    exists items, pos, nodes, st. split; [exact A|]. split; [exact B|]. split; [exact C|]. rewrite D. unfold body_out. cbn [rest_out].
+    change (normalize false false []) with (@nil N). cbn [app]. apply app_nil_r.
+Qed.
+Print Assumptions C15_literal_exact.
+
+(* non-vacuity: the hypotheses hold of "see http://x y", and scanner + parser models, run by computation on a
+   text with both kinds of comment, give the Spec's text *)
+Example C15_ex_http :
+  plain (b "see http://x y") /\ pieces MText true [] (b "see http://x y") = Some [b "see http://x y"] /\
+  droppable (b "see http://x y") = false.
+Proof.
+  split; [|split; vm_compute; reflexivity].
+  unfold plain. apply Forall_forall. intros c Hc. vm_compute in Hc.
+  repeat (destruct Hc as [<-|Hc]; [repeat split; discriminate|]). contradiction.
+Qed.
+
+Definition c15_ex_text : bstr := b "a //c" ++ [10] ++ b "b /* x */ see http://x c/*y*/".
+Example C15_ex_body_text_impl :
+  match lex_items is_letter_tbl is_digit_tbl (lex_budget c15_ex_text) false c15_ex_text with
+  | Ok items =>
+      match po_result (soy_file 0 (fun _ => []) (fun _ => None) items) with
+      | POk (NList _ nodes) _ => Some (concat (map raw_text_of nodes)) = body_text true c15_ex_text
+                                 /\ body_text true c15_ex_text = Some (b "absee http://x c")
+      | _ => False
+      end
+  | _ => False
+  end.
+Proof. vm_compute. split; reflexivity. Qed.
+
 (* template level (Spec only; the lexer and parser are tied to it by the
    correspondence harness): comments contribute nothing and cut the text into
    separately normalised pieces, http://x is not a comment *)
@@ -98,3 +237,32 @@ Example C15_ex_body_text :
   /\ body_text false (b "a /**/ b") = Some (b "ab")
   /\ body_text false (b "a /* unclosed") = None.
 Proof. repeat split; vm_compute; reflexivity. Qed.
+
+(* a body with all seven commands, by computation: scanner and parser models give the Spec's text *)
+Definition c15_ex_body : bstr * list seg :=
+  (b "a  ", [((b "sp", [32]), b "b" ++ [10] ++ b " c"); ((b "\n", [10]), []); ((b "lb", [123]), b "x/y http://z");
+             ((b "rb", [125]), []); ((b "nil", []), b " d"); ((b "\t", [9]), []); ((b "\r", [13]), b "e ");
+             ((lit_name (b " {x} // /* " ++ [10]), b " {x} // /* " ++ [10]), b "f")]).
+Example C15_ex_body_cmds :
+  stretch_ok true (fst c15_ex_body) /\ Forall seg_ok (snd c15_ex_body) /\
+  body_src (fst c15_ex_body) (snd c15_ex_body) = b "a  {sp}b" ++ [10] ++ b " c{\n}{lb}x/y http://z{rb}{nil} d{\t}{\r}e {literal} {x} // /* " ++ [10] ++ b "{/literal}f" /\
+  body_out (fst c15_ex_body) (snd c15_ex_body) = b "a   b c" ++ [10] ++ b "{x/y http://z} d" ++ [9; 13] ++ b "e  {x} // /* " ++ [10] ++ b "f" /\
+  match lex_items is_letter_tbl is_digit_tbl (lex_budget (body_src (fst c15_ex_body) (snd c15_ex_body))) false (body_src (fst c15_ex_body) (snd c15_ex_body)) with
+  | Ok items =>
+      match po_result (soy_file 0 (fun _ => []) (fun _ => None) items) with
+      | POk (NList _ nodes) _ => concat (map raw_text_of nodes) = body_out (fst c15_ex_body) (snd c15_ex_body)
+      | _ => False
+      end
+  | _ => False
+  end.
+Proof.
+  assert (Hplain : forall s : bstr, forallb (fun c => negb (c =? 0) && negb (c =? 123) && negb (c =? 125)) s = true ->
+                   Forall (fun c => c <> 0 /\ c <> 123 /\ c <> 125) s).
+  { intros s H. apply Forall_forall. intros c Hc. rewrite forallb_forall in H. specialize (H c Hc). lia. }
+  split; [split; [apply Hplain; vm_compute; reflexivity|vm_compute; reflexivity]|].
+  split.
+  { apply Forall_forall. intros sg Hin. unfold c15_ex_body in Hin. cbn [snd In] in Hin.
+    repeat (destruct Hin as [<-|Hin]; [split; [first [solve [left; vm_compute; auto 12] | right; split; [reflexivity|intros r; vm_compute; reflexivity]]|split; [apply Hplain; vm_compute; reflexivity|vm_compute; reflexivity]]|]).
+    contradiction. }
+  split; [vm_compute; reflexivity|]. split; [vm_compute; reflexivity|]. vm_compute. reflexivity.
+Qed.
